@@ -7,7 +7,7 @@
 From Coq Require Import List Permutation ZArith Bool Arith.
 From PV Require Import Model.Term Model.Subst Model.Unify Model.FD Model.State Model.Engine Spec.StreamSem
   Proofs.UnifyProofs Proofs.DiseqProofs Proofs.StreamProofs Proofs.EngineProofs Proofs.PermProofs
-  Proofs.SemProofs Proofs.MonoProofs Proofs.DenProofs.
+  Proofs.SemProofs Proofs.MonoProofs Proofs.DenProofs Proofs.FDDen Proofs.FDComp Proofs.FDProg Proofs.Complete0.
 Import ListNotations.
 
 Theorem C04_disjunction : forall defs m n st gs gs' zs,
@@ -60,6 +60,29 @@ Check C04_disjunction : forall defs m n st gs gs' zs,
   Permutation gs gs' ->
   ansS (start defs (S m)) (start defs (S n) (CConde BFS gs) st) zs ->
   exists yss', Forall2 (fun c ys => ansS (start defs (S m)) (start defs n c st) ys) gs' yss' /\ Permutation zs (concat yss').
+(* the set of solutions does not depend on the order, for the programs of this property (==, !=,
+   interleaving conjunction and disjunction, fresh): the reading Den0 is invariant under reordering
+   conjuncts and clauses, and by C02_exactly_the_solutions the solutions of the delivered answers are
+   exactly the valuations satisfying the reading - so two orderings of the same program have the same
+   solutions among their answers, and neither loses one *)
+Theorem C04_reading_order_free : forall th k a b gs1 gs2,
+  (Den0 th (CConj k a b) <-> Den0 th (CConj k b a)) /\
+  (Permutation gs1 gs2 -> (Den0 th (CConde k gs1) <-> Den0 th (CConde k gs2))).
+Proof.
+  intros th k a b gs1 gs2. split.
+  - split; intros H; inversion H; subst; constructor; assumption.
+  - intros P. split; intros H; inversion H; subst; econstructor; eauto; [eapply Permutation_in; eauto|eapply Permutation_in; [apply Permutation_sym|]; eauto].
+Qed.
+Theorem C04_same_solutions_any_order : forall defs g1 g2 m th, flatT g1 -> flatT g2 ->
+  (Den0 th g1 <-> Den0 th g2) ->
+  (forall k u n a rest u', next defs k u (start defs n g1 (empty_state m)) = NAnswer a rest u' -> MstG th a ->
+     exists a' n', MstG th a' /\ emitsE (startq defs) n' (startq defs g2 (empty_state m)) a').
+Proof.
+  intros defs g1 g2 m th F1 F2 E k u n a rest u' H HM.
+  apply (proj2 (tree_program_exact defs g2 m th F2)). apply E.
+  apply (proj1 (tree_program_exact defs g1 m th F1) k u n a rest u' H HM).
+Qed.
+
 Print Assumptions C04_disjunction.
 Print Assumptions C04_equalities.
 Print Assumptions C04_no_spurious_failure.
@@ -67,3 +90,5 @@ Print Assumptions C04_disequalities.
 Print Assumptions C04_reading_conj_order.
 Print Assumptions C04_reading_clause_order.
 Print Assumptions C04_answers_sound_any_order.
+Print Assumptions C04_reading_order_free.
+Print Assumptions C04_same_solutions_any_order.
